@@ -115,7 +115,7 @@ def run(tier):
     cov = {"states": 0, "transitions": 0, "traces_validated_against_impl": 0, "samples": [], "configs": {},
            "exhaustive": True}
     open_kf = {k["id"]: k for k in vlib.open_findings(PID)}
-    kf_s2 = "S2" in open_kf
+    kf_s2 = "S2r" in open_kf
     all_paths = []
     for name, consts in configs.items():
         # (1) TLC decides the invariants on the bounded model
@@ -186,7 +186,7 @@ def run(tier):
                     mismatch.append("real code differs from Bookkeeping.tla but C02's formulas hold on the real state (%s)" % rp)
     # (3) known findings: reproduction probes
     for kid, kf in open_kf.items():
-        if kid == "S2":
+        if kid == "S2r":
             consts = (2, 1, 1, "{1}")
             cfg = write_cfg("KF", consts, "Spec", kf_s2=False)
             r = vlib.run_tlc("MCBookkeeping.tla", cfg, workers=4, timeout=600)
@@ -194,7 +194,7 @@ def run(tier):
                 path = ce_to_path(r)
                 tot, mism = replay_paths([path], nproc=1)
                 if not mism:
-                    known.append("S2 %s (model counter-example for %s reproduced on the real code: %s)" % (kf["what"], r.violated, json.dumps(path["ops"])))
+                    known.append("S2r %s (model counter-example for %s reproduced on the real code: %s)" % (kf["what"], r.violated, json.dumps(path["ops"])))
     cov["rule"] = ("every transition (state, operation) of Bookkeeping.tla reachable within the constants of each configuration; "
                    "an operation is a process_multiple_changes batch (complete / partial / empty changesets), a buffered apply, a meta clear or a reload")
     cov["evaluations"] = cov["traces_validated_against_impl"]
@@ -204,7 +204,7 @@ def run(tier):
         "bounds: versions 1..MaxV, seqs 0..MaxS, batches of <= MaxBatch changesets per call (see coverage.configs)",
         "honest inputs: one last_seq per version, partial chunks carry a row for every seq in their range",
         "ghost 'merged' (versions stored by a committed transaction) is taken from the specification along the replayed path",
-        "known finding S2 region exempted exactly as StaleV in Bookkeeping.tla" if kf_s2 else "no known finding exempted",
+        "known finding S2r region exempted exactly as StaleV in Bookkeeping.tla" if kf_s2 else "no known finding exempted",
     ])
     return {"violations": violations, "known": known, "mismatch": mismatch}
 
